@@ -195,7 +195,7 @@ class Namespace(argparse.Namespace):
 
     def __delitem__(self, key: str) -> None:
         """Deletes an item from a possibly nested namespace."""
-        leaf_key, parent_ns, _ = self._parse_key(key)
+        leaf_key, parent_ns, _ = self._parse_required_key(key)
         del parent_ns.__dict__[leaf_key]
 
     def __contains__(self, key: str) -> bool:
@@ -310,7 +310,7 @@ class Namespace(argparse.Namespace):
 
     def pop(self, key: str, default: Any = None) -> Any:
         leaf_key, parent_ns, _ = self._parse_key(key)
-        if not parent_ns:
+        if not isinstance(parent_ns, Namespace):
             return default
         return parent_ns.__dict__.pop(leaf_key, default)
 
